@@ -9,7 +9,7 @@ Local Open Scope N_scope.
 (* The memoised FIRST sets (grammar._first_sets) are computed with whatever
    productions[0].rhs is at the time of the first call.  For every grammar in which S'
    occurs in no right-hand side, every pair of right-hand sides of production 0 (the
-   original one, or one left behind by a table construction for another start production)
+   original one, or the one of a table construction for another start production)
    and every amount of fuel for which both computations finish: the FIRST set of every
    symbol other than S' is the same. *)
 Theorem C15_first_cache_ok :
@@ -22,36 +22,33 @@ Theorem C15_first_cache_ok :
 Proof. exact first_cache_ok. Qed.
 Print Assumptions C15_first_cache_ok.
 
-(* create_table, for every item-set machinery [core], every grammar state and every option
-   set: on every exit other than an exception raised between the swap and the restore
-   (normal return, GrammarError raised before the swap) productions[0].rhs is what it was
-   on entry. *)
+(* create_table (the wrapper with its finally clause around _create_table), for every
+   item-set machinery [core], every grammar state and every option set: on EVERY exit --
+   normal return, GrammarError raised before the swap, an exception raised while the item
+   sets are computed -- productions[0].rhs is what it was on entry. *)
 Theorem C15_build_restores :
   forall (G : gstatic) core (gs : gstate) (o : bopts),
-    snd (create_table G core gs o) <> Raise XInterrupted ->
     gs_aug (fst (create_table G core gs o)) = gs_aug gs.
 Proof. exact create_table_restores. Qed.
 Print Assumptions C15_build_restores.
 
-(* ... and the excluded exit is exactly the one that does not restore: the grammar keeps
-   S' -> <symbol of the start production being built> STOP. *)
-Theorem C15_interrupted_build_leaves_swap :
-  forall (G : gstatic) core (gs : gstate) (o : bopts),
-    snd (create_table G core gs o) = Raise XInterrupted ->
-    gs_aug (fst (create_table G core gs o)) = [NT (prod_lhs G (b_start o) (gs_aug gs)); T (s_stop G)].
-Proof. exact create_table_interrupted. Qed.
-Print Assumptions C15_interrupted_build_leaves_swap.
+(* the same for a whole Parser/GLRParser construction (LAYOUT sub-parser, main table,
+   conflict check), whichever of its steps fails *)
+Theorem C15_parser_init_restores :
+  forall (G : gstatic) core sr rr (gs : gstate) (o : popts),
+    gs_aug (fst (parser_init G core sr rr gs o)) = gs_aug gs.
+Proof. exact parser_init_restores. Qed.
+Print Assumptions C15_parser_init_restores.
 
-(* Parser.__init__ (LAYOUT sub-parser, main table, conflict check): from every grammar
-   state that differs from the freshly loaded grammar at most by a filled FIRST cache, the
-   outcome (tables or exception) is the one obtained on the freshly loaded grammar, and
-   unless the construction was interrupted the grammar is again in such a state. *)
+(* Parser.__init__: from every grammar state that differs from the freshly loaded grammar
+   at most by a filled FIRST cache, the outcome (tables or exception) is the one obtained on
+   the freshly loaded grammar, and afterwards -- on every exit, an interrupted construction
+   included -- the grammar is again in such a state. *)
 Theorem C15_parser_init_transparent :
   forall (G : gstatic) core sr rr (aug0 : list sym) (gs : gstate) (o : popts),
     ginv G aug0 gs ->
     snd (parser_init G core sr rr gs o) = snd (parser_init G core sr rr (mkG aug0 None) o) /\
-    (snd (parser_init G core sr rr gs o) <> Raise XInterrupted ->
-     ginv G aug0 (fst (parser_init G core sr rr gs o))).
+    ginv G aug0 (fst (parser_init G core sr rr gs o)).
 Proof. exact parser_init_inv. Qed.
 Print Assumptions C15_parser_init_transparent.
 
@@ -87,15 +84,14 @@ Print Assumptions C15_glr_transient_removed.
    driver, and every history of any length over {LR parse of any input -- sentence or not,
    with or without recovery, possibly cut short by a raising action --, GLR parse, construction
    of another Parser/GLRParser (SLR or LALR, any prefer_shifts setting, with or without
-   LAYOUT) that succeeds or fails with conflicts or a grammar error}: if no construction was
-   interrupted between swap and restore, then afterwards the grammar's augmented production
-   is the original one, every probe parse on the subjects gives what it gives before the
-   history, and constructing any parser gives what it gives on the freshly loaded grammar. *)
+   LAYOUT) that succeeds, fails with conflicts or a grammar error, or is interrupted by an
+   exception while a table is built}: afterwards the grammar's augmented production is the
+   original one, every probe parse on the subjects gives what it gives before the history,
+   and constructing any parser gives what it gives on the freshly loaded grammar. *)
 Theorem C15_history :
   forall (G : gstatic) core sr rr (sub : lr_subject) (glr_run : pinput -> glr_path)
          (aug0 : list sym) (w0 : world) (h : list op),
     ginv G aug0 (w_g w0) ->
-    history_clean G core sr rr sub glr_run w0 h = true ->
     let w := run_history G core sr rr sub glr_run w0 h in
     gs_aug (w_g w) = aug0 /\
     (forall inp fuel budget pos,
@@ -105,7 +101,7 @@ Theorem C15_history :
 Proof. exact history_probe. Qed.
 Print Assumptions C15_history.
 
-(* ---- the excluded case is a real one -------------------------------------------------
+(* ---- the formerly excluded case (fixed in /repo: try/finally in create_table) -----------
    S' -> S STOP ; 1: S -> 'a' ; 2: LAYOUT -> WS        (a=0 STOP=1 EMPTY=2 WS=3; S'=0 S=1 LAYOUT=2)
    [core_int] gives up while building the LAYOUT automaton (state budget, KeyboardInterrupt,
    timeout); [core_slr] never does and, like the SLR reduce phase, enters a reduction of S
@@ -118,22 +114,19 @@ Definition core_int (ps : list prod) (o : bopts) (ft fo : ftab) : core_res :=
 Definition core_slr (ps : list prod) (o : bopts) (ft fo : ftab) : core_res :=
   CoreTable [mkState (NT 0) (map (fun t => (t, [Reduce 1])) (fo 1)) [] [] []].
 
-(* after an interrupted construction of the LAYOUT table, a later construction that is
-   not interrupted is handed other FOLLOW sets (STOP is no longer in FOLLOW(S)) and returns
-   another table than on the fresh grammar *)
-Theorem C15_interrupted_build_refuted :
-  exists (G : gstatic) core_i core (aug0 : list sym) (o_i o : bopts),
-    let gs0 := mkG aug0 None in
-    snd (create_table G core_i gs0 o_i) = Raise XInterrupted /\
-    (forall ps o' ft fo, core ps o' ft fo <> CoreInterrupted) /\
-    snd (create_table G core (fst (create_table G core_i gs0 o_i)) o)
-      <> snd (create_table G core gs0 o).
-Proof.
-  exists G1, core_int, core_slr, [NT 1; T 1], (mkB 2 true true true true), (mkB 1 false false false true).
-  split; [vm_compute; reflexivity|]. split; [intros; discriminate|].
-  vm_compute. discriminate.
-Qed.
-Print Assumptions C15_interrupted_build_refuted.
+(* after an interrupted construction of the LAYOUT table, a later construction is handed
+   the same FOLLOW sets (STOP in FOLLOW(S)) and returns the same table as on the fresh
+   grammar -- the witness of the former finding, now a positive instance *)
+Example C15_interrupted_build_harmless :
+  let gs0 := mkG [NT 1; T 1] None in
+  let o_i := mkB 2 true true true true in
+  let o := mkB 1 false false false true in
+  snd (create_table G1 core_int gs0 o_i) = Raise XInterrupted /\
+  gs_aug (fst (create_table G1 core_int gs0 o_i)) = [NT 1; T 1] /\
+  snd (create_table G1 core_slr (fst (create_table G1 core_int gs0 o_i)) o)
+    = snd (create_table G1 core_slr gs0 o).
+Proof. vm_compute. repeat split. Qed.
+Print Assumptions C15_interrupted_build_harmless.
 
 (* the three writes at the top of Parser.parse are what makes the frame theorem true: the
    body alone does depend on what an earlier parse left behind *)
@@ -153,12 +146,12 @@ Theorem C15_body_without_reset_refuted :
 Proof. exists (mkLI (Some [(7, 9)]) None None). vm_compute. discriminate. Qed.
 Print Assumptions C15_body_without_reset_refuted.
 
-(* non-vacuity: a clean history with a failing construction (SRConflicts), a recovered
-   parse, an aborted parse, a rejected parse and GLR parses of all three kinds; the
-   hypotheses of C15_history hold and the probe parse succeeds *)
+(* non-vacuity: a history with a failing construction (SRConflicts), an interrupted
+   construction, a recovered parse, an aborted parse, a rejected parse and GLR parses of all
+   three kinds; the hypothesis of C15_history holds and the probe parse succeeds *)
 Definition G2 : gstatic := mkGS [mkProd 1 [T 0]] [0; 1] 0 1 2 None 20.
 Definition core2 (ps : list prod) (o : bopts) (ft fo : ftab) : core_res :=
-  if b_lr1 o then CoreTable tb2
+  if b_lr1 o then (if b_ps o then CoreInterrupted else CoreTable tb2)
   else CoreTable [mkState (NT 0) [(0, [Shift 0%nat; Reduce 1])] [] [] []].
 Definition glr2 (inp : pinput) : glr_path :=
   match pi_chars inp with
@@ -170,6 +163,7 @@ Definition w2 : world := mkW (mkG [NT 1; T 1] None) (mkLI None None None) (fun _
 Definition h2 : list op :=
   [ OBuild false true false false;            (* SLR: SRConflicts *)
     OParseLR inp_xa 50 None 0;                (* recovered *)
+    OBuild false false true true;             (* interrupted while the table is built *)
     OParseLR inp_a 50 (Some 0%nat) 0;         (* the first action raises *)
     OParseGLR (mkPInput [] []);               (* recognizer raises *)
     OBuild true false false false;            (* GLRParser, LALR *)
@@ -177,9 +171,10 @@ Definition h2 : list op :=
     OParseLR (mkPInput [120] [[0]; [0]]) 50 None 0 ].
 Example C15_nonvacuous :
   ginv G2 [NT 1; T 1] (w_g w2) /\
-  history_clean G2 core2 sr_conflicts_of (rr_conflicts_of g2) sub2 glr2 w2 h2 = true /\
   probe_build G2 core2 sr_conflicts_of (rr_conflicts_of g2) w2 (mkP false true false false)
     = Raise XSRConflicts /\
+  probe_build G2 core2 sr_conflicts_of (rr_conflicts_of g2) w2 (mkP false false true true)
+    = Raise XInterrupted /\
   (exists t, probe_lr sub2 w2 inp_xa 50 None 0 = RROk t 2 [(0, 1)]) /\
   (exists t, probe_lr sub2 (run_history G2 core2 sr_conflicts_of (rr_conflicts_of g2) sub2 glr2 w2 h2)
                       inp_a 50 None 0 = RROk t 1 []).
